@@ -22,7 +22,7 @@ deriving Repr, DecidableEq
 /-- `Point.Equal` on discrete logs. -/
 def ptEq (q a b : Nat) : Bool := a % q == b % q
 
-/-- Values hashed by `NewDLEQProof`: `xG, xH, vG, vH`. -/
+/-- Values hashed by `NewDLEQProof` on the unchanged tree: `xG, xH, vG, vH` (the repaired code puts the bases `G, H` in front: `dleqInputBound` in Props/C13More.lean). -/
 def dleqInput (q g h x v : Nat) : List Nat := [mul q x g, mul q x h, mul q v g, mul q v h]
 
 /-- `NewDLEQProof(suite, G, H, x)` with commitment scalar `v` and challenge `c`:
